@@ -6,11 +6,12 @@ package config
 // totality only.
 
 import (
-	"net/netip"
 	"bytes"
 	"encoding/json"
 	"fmt"
+	"net/netip"
 	"regexp"
+	"sort"
 	"strings"
 	"testing"
 	"time"
@@ -210,11 +211,16 @@ func c02Sweep(yield func(c02Case) bool) {
 		func(i *dIface, d dDur) { i.Prefixes = []dPrefix{{Valid: d}} },
 		func(i *dIface, d dDur) { i.Prefixes = []dPrefix{{Preferred: d}} },
 		func(i *dIface, d dDur) { i.Prefixes = []dPrefix{{Preferred: d, Valid: dDur{Kind: "infinite"}}} },
-		func(i *dIface, d dDur) { dep := true; i.Prefixes = []dPrefix{{Preferred: d, Valid: d, Deprecated: &dep}} },
+		func(i *dIface, d dDur) {
+			dep := true
+			i.Prefixes = []dPrefix{{Preferred: d, Valid: d, Deprecated: &dep}}
+		},
 		func(i *dIface, d dDur) { i.Routes = []dRoute{{Lifetime: d}} },
 		func(i *dIface, d dDur) { dep := true; i.Routes = []dRoute{{Lifetime: d, Deprecated: &dep}} },
 		func(i *dIface, d dDur) { i.RDNSS = []dRDNSS{{Lifetime: d}} },
-		func(i *dIface, d dDur) { i.DNSSL = []dDNSSL{{Lifetime: d, HasKey: true, Domains: []string{"example.com"}}} },
+		func(i *dIface, d dDur) {
+			i.DNSSL = []dDNSSL{{Lifetime: d, HasKey: true, Domains: []string{"example.com"}}}
+		},
 	}
 	for _, set := range setters {
 		for _, v := range vals {
@@ -362,6 +368,93 @@ func c02Sweep(yield func(c02Case) bool) {
 	}
 }
 
+// Wrong TOML types: every key has one type (the documentation gives it); a value of any other TOML type - a float or a
+// boolean for an integer, an integer for a duration string, a table for a flag - is not "a value that satisfies the
+// documented constraints", whatever a decoder might make of it, and a table smuggles in keys nobody declared.
+type c02Typed struct {
+	Where string `json:"where"` // interface | prefix | route | rdnss | dnssl | pref64 | debug
+	Key   string `json:"key"`
+	Value string `json:"value"` // TOML text of the value
+	Type  string `json:"type"`  // its TOML type
+}
+
+var c02KeyTypes = map[string]map[string]string{
+	"interface": {"name": "string", "monitor": "bool", "advertise": "bool", "verbose": "bool", "max_interval": "string", "min_interval": "string", "managed": "bool",
+		"other_config": "bool", "reachable_time": "string", "retransmit_timer": "string", "hop_limit": "int", "default_lifetime": "string", "unicast_only": "bool",
+		"preference": "string", "mtu": "int", "source_lla": "bool", "captive_portal": "string"},
+	"prefix": {"prefix": "string", "on_link": "bool", "autonomous": "bool", "valid_lifetime": "string", "preferred_lifetime": "string", "deprecated": "bool"},
+	"route":  {"prefix": "string", "preference": "string", "lifetime": "string", "deprecated": "bool"},
+	"rdnss":  {"lifetime": "string", "servers": "strings"},
+	"dnssl":  {"lifetime": "string", "domain_names": "strings"},
+	"pref64": {"prefix": "string"},
+	"debug":  {"address": "string", "prometheus": "bool", "pprof": "bool"},
+}
+
+var c02TypedValues = []struct{ text, typ string }{
+	{"true", "bool"}, {"false", "bool"}, {"0", "int"}, {"1", "int"}, {"64", "int"}, {"1500", "int"}, {"1.5", "float"}, {"1500.0", "float"}, {"1e3", "float"}, {"inf", "float"}, {"nan", "float"},
+	{`"1"`, "string"}, {`"true"`, "string"}, {`""`, "string"}, {"[]", "array"}, {"[1]", "array"}, {`["a"]`, "strings"}, {"[true]", "array"}, {`["a", 1]`, "array"}, {"{}", "table"}, {"{ value = 1 }", "table"},
+	{"1979-05-27T07:32:00Z", "datetime"}, {"1979-05-27", "date"}, {"07:32:00", "time"},
+}
+
+func c02TypedSweep(yield func(c02Typed) bool) {
+	// (sorted: the shards split the enumeration by index, so every process must see the same order)
+	wheres := make([]string, 0, len(c02KeyTypes))
+	for w := range c02KeyTypes {
+		wheres = append(wheres, w)
+	}
+	sort.Strings(wheres)
+	for _, where := range wheres {
+		keys := c02KeyTypes[where]
+		names := make([]string, 0, len(keys))
+		for key := range keys {
+			names = append(names, key)
+		}
+		sort.Strings(names)
+		for _, key := range names {
+			want := keys[key]
+			for _, v := range c02TypedValues {
+				if v.typ == want || (want == "strings" && v.text == "[]") {
+					continue // the right type (whether the value is acceptable is the other sweeps' business)
+				}
+				if !yield(c02Typed{Where: where, Key: key, Value: v.text, Type: v.typ}) {
+					return
+				}
+			}
+		}
+	}
+}
+
+func c02TypedProp(k *verifkit.Kit) func(c c02Typed) error {
+	return func(c c02Typed) error {
+		k.Record(c, true, "wrong-type:"+c.Where, "wrong-type-value:"+c.Type)
+		line := fmt.Sprintf("%s = %s\n", c.Key, c.Value)
+		text := "[[interfaces]]\nadvertise = true\n"
+		switch c.Where {
+		case "interface":
+			if c.Key != "name" {
+				text += "name = \"eth0\"\n"
+			}
+			if c.Key == "advertise" {
+				text = "[[interfaces]]\nname = \"eth0\"\n"
+			}
+			text += line
+		case "debug":
+			text += "name = \"eth0\"\n[debug]\n" + line
+		default:
+			text += "name = \"eth0\"\n  [[interfaces." + c.Where + "]]\n  " + line
+		}
+		var cfg *Config
+		var err error
+		if perr := verifkit.Guard(func() error { cfg, err = Parse(strings.NewReader(text), c02Epoch); return nil }); perr != nil {
+			return verifkit.Violf("panic", "Parse panicked on\n%s\n%v", text, perr)
+		}
+		if err == nil {
+			return verifkit.Violf("C02/wrong-type-accepted", "the key %s of %s takes a %s; the %s value %s was accepted:\n%s\nparsed: %+v", c.Key, c.Where, c02KeyTypes[c.Where][c.Key], c.Type, c.Value, text, cfg.Interfaces)
+		}
+		return nil
+	}
+}
+
 func TestVerif_C02(t *testing.T) {
 	k := verifkit.Start(t, "C02")
 	prop := c02Prop(k)
@@ -370,9 +463,13 @@ func TestVerif_C02(t *testing.T) {
 		if strings.HasPrefix(sub, "bytes") {
 			return verifkit.Decode(raw, bprop)
 		}
+		if strings.HasPrefix(sub, "wrong-type") {
+			return verifkit.Decode(raw, c02TypedProp(k))
+		}
 		return verifkit.Decode(raw, prop)
 	})
 	verifkit.Enumerate(k, t, "single-key-boundary-sweep", true, c02Sweep, prop)
+	verifkit.Enumerate(k, t, "wrong-type-values", true, c02TypedSweep, c02TypedProp(k))
 	verifkit.Rapid(k, t, "structured-documents", k.N(20000, 1000000), c02Gen, prop)
 	verifkit.Rapid(k, t, "bytes-totality", k.N(20000, 400000), c02GenBytes, bprop)
 }
